@@ -90,7 +90,7 @@ type variant struct {
 }
 
 func selfTest(repo, vdir string, p *props.Property) *selfTestResult {
-	out := &selfTestResult{Note: "each variant is the current working tree of the repository plus one recorded patch, analysed by a child process; kill list = /verif/seeded entries written against this property (known misses are listed in DESIGN.md), silent list = /verif/silent (behaviour-preserving refactors touching the property's packages)"}
+	out := &selfTestResult{Note: "each variant is the current working tree of the repository plus one recorded patch, analysed by a child process; kill list = /verif/seeded entries written against this property (known misses are listed in DESIGN.md) plus /verif/killlist/<property>__*.diff (hand-written shape mutants), silent list = /verif/silent (behaviour-preserving refactors touching the property's packages)"}
 	var vs []variant
 	seeded, _ := filepath.Glob(filepath.Join(vdir, "seeded", "*", "meta.json"))
 	sort.Strings(seeded)
@@ -112,6 +112,11 @@ func selfTest(repo, vdir string, p *props.Property) *selfTestResult {
 		if mine {
 			vs = append(vs, variant{name: filepath.Base(filepath.Dir(m)), patch: filepath.Join(filepath.Dir(m), "patch.diff")})
 		}
+	}
+	kl, _ := filepath.Glob(filepath.Join(vdir, "killlist", p.ID+"__*.diff"))
+	sort.Strings(kl)
+	for _, k := range kl {
+		vs = append(vs, variant{name: "killlist/" + strings.TrimSuffix(filepath.Base(k), ".diff"), patch: k})
 	}
 	pkgs := map[string]bool{}
 	for _, s := range p.Sels {
